@@ -545,7 +545,14 @@ func run(tier string) int {
 				fs := faultSeqs[it.v]
 				in := &caseInput{Path: "fault", Lease: leases[it.l], Foreign: foreignFor(leases, it.l),
 					Settings: settings[fs[0]], Group: groups[it.g], Group2: &g2, Settings2: &settings[fs[1]]}
-				err := evalFault(in, tier == "thorough", local, func(vs []violation, c *caseInput) { col.add(vs, c) })
+				reported := 0
+				err := evalFault(in, tier == "thorough", local, func(vs []violation, c *caseInput) { reported += len(vs); col.add(vs, c) })
+				if err != nil && reported > 0 {
+					// the failing Deploy left a violation behind: that is the verdict, not a machinery problem
+					atomic.AddInt64(&deployErrs, 1)
+					atomic.AddInt64(&doneF, 1)
+					continue
+				}
 				if err != nil {
 					if atomic.AddInt64(&machErrs, 1) == 1 {
 						raw, _ := json.Marshal(in)
@@ -574,16 +581,14 @@ func run(tier string) int {
 	close(chC)
 	wg.Wait()
 
-	if machErrs > 0 {
-		fmt.Fprintf(os.Stderr, "machinery: %d Deploy/Teardown calls failed on the fake API server; first: %v\n", machErrs, firstMachErr.Load())
-		return 2
-	}
+	// Deploy/Teardown calls that failed WITHOUT leaving a violation are a machinery failure (exit 2) - but
+	// only if the run found no violation at all: the oracles are evaluated first (see the end of run)
 	if dupBits > 0 {
 		fmt.Fprintf(os.Stderr, "machinery: %d inputs were generated twice\n", dupBits)
 		return 2
 	}
 
-	exhaustive := atomic.LoadInt32(&stopped) == 0 && evalsA == plannedA && evalsB == plannedB && evalsT == plannedT && doneF == plannedF
+	exhaustive := machErrs == 0 && atomic.LoadInt32(&stopped) == 0 && evalsA == plannedA && evalsB == plannedB && evalsT == plannedT && doneF == plannedF
 	evals := evalsA + evalsB + evalsN + evalsT + fstats.runs
 	distinct := ntA.count() + ntB.count() + ntT + fstats.objectsAfter
 
@@ -699,6 +704,16 @@ func run(tier string) int {
 		tier, evalsT, plannedT, doneF, plannedF, fstats.positions, fstats.runs, fstats.pairRuns, fstats.nilAfterError, len(fstats.outcomes))
 	fmt.Printf("C11 %s: evaluations=%d (builders %d/%d, deploy %d/%d, lidns %d) distinct_nontrivial=%d exhaustive=%v signatures=%d wall=%.1fs\n",
 		tier, evals, evalsA, plannedA, evalsB, plannedB, evalsN, distinct, exhaustive, len(sigs), time.Since(start).Seconds())
+	if machErrs > 0 {
+		// a Deploy/Teardown that fails without an injected fault and without leaving any violation behind
+		msg := fmt.Sprintf("%d Deploy/Teardown calls failed on the fake API server without an injected fault and without a violation to report (unexplained-deploy-failure); first: %v", machErrs, firstMachErr.Load())
+		if exit == 1 {
+			fmt.Fprintln(os.Stderr, "note:", msg, "- the violations above are the verdict")
+			return 1
+		}
+		fmt.Fprintln(os.Stderr, "machinery:", msg)
+		return 2
+	}
 	return exit
 }
 
